@@ -533,8 +533,7 @@ def sameColor (c d : Color) : Bool := c.eq d && visitColor true c == visitColor 
   S-expression tokens: `(` f arg… `)`; atoms `n:<num>/<den>:<unit>` (unit `-` none, `pct`, `deg`),
   `c:<spelling>` named colour, `h:<digits>` hex colour, `k:<name>` keyword marker (next arg is its value).
   color inrange <r> <g> <b> <a>                  P̂ range on an observed colour (rationals `n/d`)
-  color same <r g b a> <r g b a>                 `Color.eq` on two observed colours
-  color named-consistent                         table checks (also proved by `decide +kernel`)
+  color same <r g b a> <r g b a>                 `sameColor` (`Color.eq` + identical compressed print) on two observed colours
 -/
 
 inductive Val where
